@@ -210,6 +210,23 @@ theorem zernike_basis_independent_instance_normalised :
     blockOf 4 3 ex3Basis = !![1, 2, 0; 1, 0, -2; 1, -1, 0; 0, 0, 0] ∧ IsUnit ((blockOf 4 3 ex3Basis)ᵀ * blockOf 4 3 ex3Basis).det :=
   ⟨ex3Basis_entries, ex3Basis_independent⟩
 
+/-- **fit, compose and remove are linear** — the clauses hold "for all coefficient vectors" and all OPDs because the three maps are linear:
+`fit(a·x + y) = a·fit x + fit y`, `compose(a·c + d) = a·compose c + compose d`, `remove(a·x + y) = a·remove x + remove y` (no independence
+hypothesis needed) -/
+theorem fit_compose_remove_linear {F : Type} [Field F] (B : Matrix P M F) (a : F) (x y : P → F) (c d : M → F) :
+    zfit B (a • x + y) = a • zfit B x + zfit B y ∧ zcompose B (a • c + d) = a • zcompose B c + zcompose B d ∧
+    zremove B (a • x + y) = a • zremove B x + zremove B y := by
+  have h1 : zfit B (a • x + y) = a • zfit B x + zfit B y := by
+    unfold zfit; rw [Matrix.mulVec_add, Matrix.mulVec_smul]
+  have h2 : ∀ c d : M → F, zcompose B (a • c + d) = a • zcompose B c + zcompose B d := by
+    intro c d; unfold zcompose; rw [Matrix.mulVec_add, Matrix.mulVec_smul]
+  refine ⟨h1, h2 c d, ?_⟩
+  unfold zremove
+  rw [h1, h2]
+  ext p
+  simp only [Pi.sub_apply, Pi.add_apply, Pi.smul_apply, smul_eq_mul]
+  ring
+
 /-- **the formula the theorems use for `np.linalg.pinv(basis)` is the Moore–Penrose inverse, and the only one**: under the independence hypothesis
 `P = (BᵀB)⁻¹Bᵀ` satisfies the four Penrose equations `B P B = B`, `P B P = P`, `(B P)ᵀ = B P`, `(P B)ᵀ = P B`, and ANY matrix `X` with
 `B X B = B` and `(B X)ᵀ = B X` equals it. So the trusted contract is exactly NumPy's documented one — "`pinv` returns the Moore–Penrose
